@@ -23,10 +23,11 @@ import (
 // id -> (key, metadata) of acknowledged registrations.
 
 type rop struct {
-	kind       string // reg, reconnect, checkin, dead
-	h, i       uint32 // header id, inner id (reg); agent, carried id (checkin)
-	k          byte
-	name       string
+	kind   string // reg, reconnect, checkin, dead
+	h, i   uint32 // header id, inner id (reg); agent, carried id (checkin)
+	k      byte
+	name   string
+	dbfail bool
 }
 
 func regAlphabet() []rop {
@@ -44,6 +45,9 @@ func regAlphabet() []rop {
 		{kind: "reg", h: 2, i: 2, k: 0, name: "reg(2,2,zero key)"},
 		{kind: "reg", h: 2, i: 1, k: 0, name: "reg(header 2, inner 1, zero key)"},
 		{kind: "reg", h: big, i: 1, k: 0, name: "reg(header 80000001, inner 1, zero key)"},
+		// the database refuses the session's row (disk I/O error): whatever the teamserver
+		// answers, "acknowledged" and "a session exists" must go together
+		{kind: "reg", h: 2, i: 2, k: 2, dbfail: true, name: "reg(2,2,k2) while the database refuses the row"},
 		{kind: "reconnect", h: 1, name: "reconnect(1)"},
 		{kind: "reconnect", h: 2, name: "reconnect(2)"},
 		{kind: "checkin", h: 1, i: 1, name: "checkin-callback(1 carries 1)"},
@@ -87,12 +91,22 @@ func (w *regWorld) apply(o rop) (string, string) {
 	switch o.kind {
 	case "reg":
 		host := fmt.Sprintf("H%d", w.n)
+		undo := func() {}
+		if o.dbfail {
+			var err error
+			if undo, err = w.ts.DBFault("TS_Agents", "INSERT"); err != nil {
+				return "harness/db-fault", err.Error()
+			}
+		}
 		res := w.ts.Post(demonwire.Register(o.h, seam.Key(o.k), seam.IV(o.k), metaFor(o.i, host)))
+		undo()
 		if res.Panic != nil {
 			return "panic/" + res.Stack, fmt.Sprint(res.Panic)
 		}
 		_, exists := w.model[o.h]
 		switch {
+		case o.dbfail && !exists && res.Status != 200:
+			// refused because the row could not be written: fine, as long as no session was left behind
 		case o.h != 0 && o.h == o.i && !exists:
 			// a proper registration: acknowledged with the id under the session key
 			want := ackOf(o.h, o.k)
